@@ -3785,9 +3785,14 @@ impl ScalarValue {
                 ) -> Result<ArrayRef> {
                     let size_native = R::Native::from_usize(size)
                         .ok_or_else(|| DataFusionError::Execution(format!("Cannot construct RunArray of size {size}: Overflows run-ends type {}", R::DATA_TYPE)))?;
-                    let values = value.to_array_of_size(1)?;
-                    let run_ends =
-                        PrimitiveArray::<R>::new(vec![size_native].into(), None);
+                    // A run must have a strictly positive length, so an empty
+                    // array has no runs at all (rather than one run ending at 0).
+                    let num_runs = size.min(1);
+                    let values = value.to_array_of_size(num_runs)?;
+                    let run_ends = PrimitiveArray::<R>::new(
+                        vec![size_native; num_runs].into(),
+                        None,
+                    );
 
                     // Using ArrayDataBuilder so we can maintain the fields
                     let dt = DataType::RunEndEncoded(
